@@ -87,6 +87,25 @@ class C19(Check):
         lines, outs = wprog.with_tables(self.exes["debug"], [dict(ops=o) for o, _ in progs])
         for l, (o, exp) in zip(lines, progs):
             cases.append((l, {"k": "wprog", "names": exp}))
+        # the same names through the streaming reader, over sources that deliver the stream in short pieces (a name
+        # longer than one piece must still arrive whole): name, raw name and content as the seekable reader reports them
+        import genzip
+        from genzip import Entry
+        streams = []
+        for (o, exp), out1 in zip(progs, outs):
+            if not any(getattr(y, "pw", None) for x in o for y in x):
+                d = wprog.final_bytes(out1)[1]
+                if d:
+                    streams.append((d, len(exp)))
+        longn = ("\u00e9t\u00e9-\u2603/" * 40).encode("utf-8")
+        for flagged in (True, False):
+            d, _ = genzip.build([Entry(longn, b"long name", utf8=flagged), Entry(b"caf\x82\x9b" * 30, b"cp437 or not", utf8=flagged, method=8),
+                                 Entry("\u00fc".encode("utf-8"), b"", utf8=flagged)])
+            streams.append((d, 3))
+        for d, n in streams:
+            for plan in (bytes([1]), bytes([7]), bytes([64]), bytes(r.randrange(1, 40) for _ in range(64))):
+                pl = (plan * (4 * len(d) // len(plan) + 64))[:65535]
+                cases.append(("stream_vs_seek %s xff %s" % (hexs(d), hexs(pl)), {"k": "svs", "n": n, "impl_only": True}))
         return cases
 
     def oracle(self, line, meta, out):
@@ -95,6 +114,10 @@ class C19(Check):
         if "DIFF" in out or "CHANGED" in out:
             return "accessors disagree: " + out[-60:]
         parts = line.split()
+        if meta.get("k") == "svs":
+            if not out.startswith("[SAME %d]" % meta["n"]):
+                return "names / raw names / contents delivered by the streaming reader over a short-reading source differ from the seekable reader's: " + out[:160]
+            return None
         if meta.get("k") == "wprog":
             import io, zipfile, wprog
             _, data = wprog.final_bytes(out)
